@@ -2,7 +2,7 @@
    Nothing is re-modelled and nothing is re-proved here: every lemma is a projection / repackaging of a theorem of the
    owning property's Props file, stated over that property's own model.  Modules are Required, not Imported: the
    component models reuse the names step / init / run. *)
-From Coq Require Import ZArith List Bool Lia Permutation String.
+From Coq Require Import ZArith List Bool Lia Permutation.
 From DV Require Import Base.Life Base.Sched Model.C11Check.
 From DV Require Props.Properties_C39 Props.Properties_C40 Props.Properties_C38 Props.Properties_C32 Props.Properties_C33
   Props.Properties_C34 Props.Properties_C35 Props.Properties_C36 Props.Properties_C37 Props.Properties_C41 Props.Properties_C42
@@ -81,3 +81,330 @@ Proof.
   destruct (Properties_C32.C32_cvec_lifetime_balanced tr max_n ops Hf Hp) as (A & B & C & D & E).
   repeat split; assumption.
 Qed.
+
+(* ------------------------------------------------------------------------------------------------ ConcurrentVector growth (C33) *)
+(* all interleavings of growing threads: no position is constructed twice (no construction over a live element) and every
+   construction goes into a bucket whose buffer is allocated at that moment; a published buffer pointer never changes
+   (references stay valid: no dangling element pointer through growth) *)
+Definition cvecgrow_safe : Prop :=
+  forall strat shift, 0 <= shift -> forall progs, Forall (Forall C33Proofs.wf_op) progs ->
+  forall s, reach (CVecGrowModel.gstep strat shift) (CVecGrowModel.init progs) s ->
+    NoDup (map CVecGrowModel.gc_idx (CVecGrowModel.g_cells (CVecGrowModel.sh s))) /\
+    (forall c, In c (CVecGrowModel.g_cells (CVecGrowModel.sh s)) -> CVecGrowModel.gc_buf c <> 0) /\
+    (forall s2 k, reach (CVecGrowModel.gstep strat shift) s s2 ->
+       CVecGrowModel.lookup k (CVecGrowModel.g_bufs (CVecGrowModel.sh s)) <> 0 ->
+       CVecGrowModel.lookup k (CVecGrowModel.g_bufs (CVecGrowModel.sh s2)) = CVecGrowModel.lookup k (CVecGrowModel.g_bufs (CVecGrowModel.sh s))).
+
+Lemma cvecgrow_safe_proof : cvecgrow_safe.
+Proof.
+  intros strat shift Hs progs Hp s Hr.
+  destruct (Properties_C33.C33_no_overwrite strat shift Hs progs Hp s Hr) as (A & B).
+  split; [exact A|]. split.
+  - intros c Hc. exact (proj1 (B c Hc)).
+  - intros s2 k Hr2 Hn. exact (Properties_C33.C33_pointers_stable strat shift Hs progs Hp s s2 k Hr Hr2 Hn).
+Qed.
+
+(* ------------------------------------------------------------------------------------------------ MPMCRingBuffer (C34) *)
+Definition mpmc_safe : Prop :=
+  forall n progs s, 2 <= n -> reach MpmcModel.gstep (MpmcModel.init n progs) s ->
+    l_errs (MpmcModel.led s) = [] /\
+    (* a consumer about to hand its slot back to the producers has already destroyed the payload *)
+    (forall t th h0 v, nth_error (MpmcModel.threads s) t = Some th -> MpmcModel.tpc th = MpmcModel.PPopStoreSeq h0 v ->
+       is_live (lget (MpmcModel.led s) (h0 mod MpmcModel.N s)) = false) /\
+    (* ~MPMCRingBuffer at quiescence: no misuse, nothing left alive *)
+    (MpmcModel.quiescent s = true -> MpmcModel.tail s < 2 ^ 62 ->
+       l_errs (MpmcModel.dtor s) = [] /\ forall i, 0 <= i < MpmcModel.N s -> is_live (lget (MpmcModel.dtor s) i) = false).
+
+Lemma mpmc_safe_proof : mpmc_safe.
+Proof.
+  intros n progs s Hn Hr. split; [exact (proj1 (Properties_C34.C34_lifetimes n progs s Hn Hr))|]. split.
+  - intros t th h0 v Ht Hpc. exact (proj2 (Properties_C34.C34_payload_dead_before_release n progs s t th h0 v Hn Hr Ht Hpc)).
+  - intros Hq Hb. exact (Properties_C34.C34_destructor_balanced n progs s Hn Hr Hq Hb).
+Qed.
+
+(* ------------------------------------------------------------------------------------------------ SPSCRingBuffer (C35) *)
+Definition spsc_safe : Prop :=
+  forall k p0 p1 s, Properties_C35.C35_domain k p0 p1 -> reach SpscModel.step (SpscModel.init k p0 p1) s ->
+    l_errs (SpscModel.led s) = [] /\
+    match SpscModel.tpc (SpscModel.th1 s) with
+    | SpscModel.PPopStoreHead c v => is_live (lget (SpscModel.led s) c) = false
+    | SpscModel.PQStoreHead hp cnt acc =>
+        forall j, 0 <= j < cnt -> is_live (lget (SpscModel.led s) ((C35Proofs.zlen (SpscModel.popped s) + j) mod SpscModel.K s)) = false
+    | _ => True
+    end /\
+    (C35Proofs.rl (SpscModel.tpc (SpscModel.th1 s)) = [] -> C35Proofs.wl (SpscModel.tpc (SpscModel.th0 s)) = [] ->
+       l_errs (SpscModel.dtor s) = [] /\ forall i, 0 <= i < SpscModel.K s -> is_live (lget (SpscModel.dtor s) i) = false).
+
+Lemma spsc_safe_proof : spsc_safe.
+Proof.
+  intros k p0 p1 s Hd Hr. split; [exact (proj1 (Properties_C35.C35_lifetimes k p0 p1 s Hd Hr))|]. split.
+  - exact (Properties_C35.C35_payload_dead_before_release k p0 p1 s Hd Hr).
+  - intros H1 H0. exact (Properties_C35.C35_destructor_balanced k p0 p1 s Hd Hr H1 H0).
+Qed.
+
+(* ------------------------------------------------------------------------------------------------ ChaseLevDeque (C36) *)
+(* elements are trivially copyable: the only memory-safety content is that the live window [top, bottom) never exceeds the
+   buffer, so `index & mask` never aliases two live entries *)
+Definition chaselev_safe : Prop :=
+  forall cp i0 oprog tprogs s, ChaseLevLemmas.pow2cap cp -> C36Proofs.wf_thieves tprogs ->
+    reach ChaseLevModel.step (ChaseLevModel.init cp i0 oprog tprogs) s ->
+    ChaseLevModel.bot s - ChaseLevModel.top s <= ChaseLevModel.cap s /\ ChaseLevModel.top s <= ChaseLevModel.bot s + 1.
+
+Lemma chaselev_safe_proof : chaselev_safe.
+Proof.
+  intros cp i0 oprog tprogs s Hc Hw Hr. exact (proj2 (Properties_C36.C36_cl_bounded cp i0 oprog tprogs s Hc Hw Hr)).
+Qed.
+
+(* ------------------------------------------------------------------------------------------------ ConcurrentObjectArena (C37) *)
+Definition arena_safe : Prop :=
+  (* concurrent grow_by: no interleaving reads a buffer-table entry that was never written *)
+  (forall a0 nid deltas s, C37Proofs.arena_wf a0 -> Forall (fun d => 0 <= d) deltas ->
+     reach ArenaModel.step (ArenaModel.init_state a0 nid deltas) s -> ArenaModel.c_ub s = false) /\
+  (* copy constructor: defined on every arena (copy_ctor = None is the model's "indexes past the table / reads an unwritten
+     entry"), and deep: the copy owns fresh buffers only, so the two destructors free disjoint storage *)
+  (forall a nid, C37Proofs.arena_ok a ->
+     exists c n', ArenaModel.copy_ctor a nid = Some (c, n') /\
+       (forall b bf, ArenaModel.get_buf c b = Some bf -> (nid <= ArenaModel.bid bf < n')%nat) /\ C37Proofs.arena_ok c).
+
+Lemma arena_safe_proof : arena_safe.
+Proof.
+  split.
+  - exact Properties_C37.C37_growby_no_uninit_read.
+  - intros a nid Ha. destruct (Properties_C37.C37_copy_equal a nid Ha) as (c & n' & H1 & _ & _ & _ & _ & _ & _ & H8 & H9).
+    exists c, n'. split; [exact H1|]. split; [exact H8|exact H9].
+Qed.
+
+(* ------------------------------------------------------------------------------------------------ SmallBufferAllocator (C41) *)
+Definition sba_queue_spec (Q : Type) (qenq : Q -> list Z -> Q) (qdeq : Q -> nat -> list Z -> list Z * Q) (qcont : Q -> list Z) : Prop :=
+  (forall q l b, SmallBufLemmas.cnt b (qcont (qenq q l)) = (SmallBufLemmas.cnt b (qcont q) + SmallBufLemmas.cnt b l)%nat) /\
+  (forall q n h l q', qdeq q n h = (l, q') ->
+     forall b, SmallBufLemmas.cnt b (qcont q) = (SmallBufLemmas.cnt b l + SmallBufLemmas.cnt b (qcont q'))%nat).
+
+Definition smallbuf_safe : Prop :=
+  (* ownership, all interleavings, any central container meeting the multiset specification: a chunk is in exactly one
+     place (user / central store / a thread cache), and alloc never returns a chunk that is still live (no double hand-out,
+     hence no use of a chunk after it was handed to somebody else) *)
+  (forall Q qenq qdeq qcont c, sba_queue_spec Q qenq qdeq qcont -> 0 < SmallBufModel.ideal c <= SmallBufModel.pm c ->
+   forall (q0 : Q) progs s, qcont q0 = [] ->
+     reach (SmallBufModel.step Q qenq qdeq c) (SmallBufModel.init Q q0 progs) s ->
+     NoDup (SmallBufModel.all_blocks Q qcont c s) /\
+     (forall t ch s' ch' site b, SmallBufModel.step Q qenq qdeq c s t ch = Some (s', ch', site) ->
+        SmallBufModel.user s' = SmallBufModel.user s ++ [b] -> ~ In b (SmallBufModel.user s))) /\
+  (* carving: every chunk lies inside the slab it was carved from, is aligned to the chunk size, chunks are byte-disjoint *)
+  (forall c chunk (base : Z -> Z), 0 < chunk -> 0 < SmallBufModel.pm c -> SmallBufModel.pm c * chunk <= SmallBufModel.mbytes c ->
+     (forall k, base k mod chunk = 0) ->
+     (forall k k', k <> k' -> base k + SmallBufModel.mbytes c <= base k' \/ base k' + SmallBufModel.mbytes c <= base k) ->
+     (forall b, C41Proofs.addr c chunk base b mod chunk = 0) /\
+     (forall b, base (b / SmallBufModel.pm c) <= C41Proofs.addr c chunk base b /\
+                C41Proofs.addr c chunk base b + chunk <= base (b / SmallBufModel.pm c) + SmallBufModel.mbytes c) /\
+     (forall b b', b <> b' -> C41Proofs.addr c chunk base b + chunk <= C41Proofs.addr c chunk base b' \/
+                              C41Proofs.addr c chunk base b' + chunk <= C41Proofs.addr c chunk base b)).
+
+Lemma smallbuf_safe_proof : smallbuf_safe.
+Proof.
+  split.
+  - intros Q qenq qdeq qcont c (He & Hd) Hc q0 progs s Hq Hr. split.
+    + exact (Properties_C41.C41_blocks_exclusive Q qenq qdeq qcont c He Hd Hc q0 progs s Hq Hr).
+    + intros t ch s' ch' site b Hs Hu.
+      exact (proj1 (Properties_C41.C41_no_reissue_before_dealloc Q qenq qdeq qcont c He Hd Hc q0 progs s t ch s' ch' site b Hq Hr Hs Hu)).
+  - exact Properties_C41.C41_blocks_sized_aligned.
+Qed.
+
+(* ------------------------------------------------------------------------------------------------ PoolAllocator (C42) *)
+Definition poolalloc_safe : Prop :=
+  forall cs asz, 1 <= cs <= asz -> forall allocf : list Z -> Z,
+  (forall live b, In b live -> allocf live + asz <= b \/ b + asz <= allocf live) ->
+  forall ops r, PoolAllocModel.run cs asz allocf ops PoolAllocModel.rs_init = Some r ->
+    (* every chunk (outstanding or free) lies inside a slab obtained from allocFunc_ *)
+    (forall p, In p (PoolAllocModel.rs_out r ++ PoolAllocModel.pa_chunks (PoolAllocModel.rs_pa r)) ->
+       C42Proofs.in_slab cs asz allocf (PoolAllocModel.rs_pa r) p) /\
+    (* no chunk is handed out while outstanding *)
+    NoDup (PoolAllocModel.rs_out r) /\
+    (forall r' p c, PoolAllocModel.step_op cs asz allocf r PoolAllocModel.Alloc = Some (r', PoolAllocModel.EvAlloc p c) ->
+       ~ In p (PoolAllocModel.rs_out r)) /\
+    (* the destructor frees each slab exactly once: no leak, no double free *)
+    Permutation (PoolAllocModel.dtor_calls (PoolAllocModel.rs_pa r)) (PoolAllocModel.pa_slabs (PoolAllocModel.rs_pa r)) /\
+    NoDup (PoolAllocModel.pa_slabs (PoolAllocModel.rs_pa r)).
+
+Lemma poolalloc_safe_proof : poolalloc_safe.
+Proof.
+  intros cs asz Hc allocf Ha ops r Hr.
+  destruct (Properties_C42.C42_chunks_within_slabs cs asz Hc allocf Ha ops r Hr) as (A & _).
+  destruct (Properties_C42.C42_no_double_handout cs asz Hc allocf Ha ops r Hr) as (B & C).
+  destruct (Properties_C42.C42_dtor_frees_each_slab_once cs asz Hc allocf Ha ops r Hr) as (D & E & _).
+  split; [exact A|]. split; [exact B|]. split; [|split; assumption].
+  intros r' p c H. exact (proj1 (C r' p c H)).
+Qed.
+
+(* ------------------------------------------------------------------------------------------------ Future refcount (C18) *)
+Definition future_safe : Prop :=
+  forall B c ds s, C18Proofs.wf_init B c ds -> reach FutureModel.step (FutureModel.init c ds) s ->
+    (* no step touches the shared state after the dealloc step; dealloc exactly when the count reaches zero; a thread
+       inside an operation holds a counted reference and the state is not freed under it *)
+    FutureModel.bad_touch (FutureModel.sh s) = false /\
+    FutureModel.freed (FutureModel.sh s) = (if FutureModel.refc (FutureModel.sh s) =? 0 then 1 else 0) /\
+    (forall th, In th (FutureModel.threads s) -> FutureModel.tpc th <> FutureModel.PStart -> FutureModel.tpc th <> FutureModel.PDone ->
+       FutureModel.freed (FutureModel.sh s) = 0).
+
+Lemma future_safe_proof : future_safe.
+Proof.
+  intros B c ds s Hw Hr. destruct (Properties_C18.C18_refcount_safe B c ds s Hw Hr) as (A & F & _ & T).
+  split; [exact A|]. split; [exact F|]. intros th Hin H1 H2. destruct (T th Hin) as (_ & _ & X). exact (proj2 (X H1 H2)).
+Qed.
+
+(* ------------------------------------------------------------------------------------------------ alignedMalloc / alignedFree (C44) *)
+Definition alignedmalloc_safe : Prop :=
+  forall k p bytes m, 0 <= k <= 63 -> 0 < p -> (8 | p) -> 0 <= bytes -> p + (bytes + Z.max (2 ^ k) 8) < 2 ^ 64 ->
+    let a := 2 ^ k in
+    let '(m', ret) := BitMathModel.alignedMalloc_m m p a in
+    (a | ret) /\
+    (* the recovery word and the user's bytes lie inside the block [p, p + request) that ::malloc returned *)
+    p + 8 <= ret /\ ret + bytes <= p + BitMathModel.am_request bytes a /\
+    (* alignedFree passes exactly malloc's pointer to ::free, whatever the user wrote into his bytes *)
+    (forall ws, (forall x b, In (x, b) ws -> ret <= x < ret + bytes) ->
+       BitMathModel.alignedFree_m (BitMathProofs.write_all m' ws) ret = Some p).
+
+Lemma alignedmalloc_safe_proof : alignedmalloc_safe.
+Proof.
+  intros k p bytes m Hk Hp H8 Hb Hfit a.
+  pose proof (Properties_C44.C44_alignedMalloc_aligned k p bytes m Hk Hp H8 Hb Hfit) as H. cbv zeta in H. subst a.
+  destruct (BitMathModel.alignedMalloc_m m p (2 ^ k)) as [m' ret].
+  destruct H as (_ & A & B & C & _ & _ & D). repeat split; assumption.
+Qed.
+
+(* ------------------------------------------------------------------------------------------------ TimedTask teardown (C26 d) *)
+(* full strength: once ~TimedTask has returned no later step accesses the freed closure.  FALSE of the code (C26's finding
+   dtor-passes-inprogress-spin-while-func-call-in-flight); what holds is the statement on the complement of its domain *)
+Definition timedtask_teardown_full : Prop :=
+  forall N npool rs prog s s', 0 <= N < 2 ^ 32 -> reach TimedTaskModel.step (TimedTaskModel.init N npool rs prog) s ->
+    TimedTaskModel.dtor_ret (TimedTaskModel.g s) = true -> reach TimedTaskModel.step s s' ->
+    TimedTaskModel.uaf (TimedTaskModel.g s') = 0.
+
+Definition timedtask_teardown_except : Prop :=
+  forall N npool rs prog s s', 0 <= N < 2 ^ 32 -> reach TimedTaskModel.step (TimedTaskModel.init N npool rs prog) s ->
+    TimedTaskModel.up s = TimedTaskModel.UDtorSpin -> TimedTaskModel.inprog (TimedTaskModel.m s) = 0 ->
+    C26Proofs.holds_ticket (TimedTaskModel.sp s) = false -> reach TimedTaskModel.step s s' ->
+    (* from the destructor's successful inProgress load on: no access to the closure, no call of the emptied func *)
+    TimedTaskModel.acc (TimedTaskModel.g s') = TimedTaskModel.acc (TimedTaskModel.g s) /\
+    TimedTaskModel.badcall (TimedTaskModel.g s') = TimedTaskModel.badcall (TimedTaskModel.g s).
+
+Lemma timedtask_teardown_except_proof : timedtask_teardown_except.
+Proof.
+  intros N npool rs prog s s' HN Hr Hu Hi Hh Hr2.
+  pose proof (Properties_C26.C26_holds_except_dtor N npool rs prog s s' HN Hr Hu Hi Hh Hr2) as H.
+  unfold C26Proofs.touches in H. inversion H. split; reflexivity.
+Qed.
+
+Lemma timedtask_teardown_refuted : ~ timedtask_teardown_full.
+Proof.
+  intros F. destruct Properties_C26.C26_refuted_dtor as (s & s' & Hr & Hd & _ & Hr2 & _ & Hu).
+  assert (HN : 0 <= 1 < 2 ^ 32) by (split; [discriminate | reflexivity]).
+  pose proof (F 1 1%nat [] [TimedTaskModel.UDtor] s s' HN Hr Hd Hr2) as E. rewrite E in Hu. discriminate Hu.
+Qed.
+
+(* ------------------------------------------------------------------------------------------------ chunk arithmetic (C15, C17) *)
+Definition in_ssize (z : Z) : Prop := - 2 ^ 63 <= z < 2 ^ 63.
+
+(* staticChunkSize(ssize_t items, ssize_t chunks) as regenerated from the source: in the domain of C17 (items >= 0,
+   chunks >= 1, items + chunks representable) the divisor is non-zero and every intermediate value of the signed
+   arithmetic is representable: no division by zero, no signed overflow.  for_each never passes chunks = 0 (C15). *)
+Definition chunk_arith_safe : Prop :=
+  (forall c, ForEachModel.fe_numThreads c <> 0) /\
+  (forall items chunks, 0 <= items -> 0 < chunks -> items + chunks < 2 ^ 63 ->
+     let ceil := Z.quot (items + chunks - 1) chunks in
+     let numLeft := ceil * chunks - items in
+     GenChunk.gen_staticChunkSize items chunks = (chunks - numLeft, ceil) /\
+     chunks <> 0 /\
+     in_ssize (items + chunks) /\ in_ssize (items + chunks - 1) /\ in_ssize ceil /\ in_ssize (ceil * chunks) /\
+     in_ssize numLeft /\ in_ssize (chunks - numLeft)).
+
+Lemma chunk_arith_safe_proof : chunk_arith_safe.
+Proof.
+  split.
+  - intros c. pose proof (Properties_C15.C15_thread_count c) as H. lia.
+  - intros items chunks Hi Hc Hf ceil numLeft.
+    split; [reflexivity|]. split; [lia|].
+    pose proof (Properties_C17.C17_staticChunkSize items chunks Hi Hc) as H.
+    unfold GenChunk.gen_staticChunkSize in H. fold ceil in H. fold numLeft in H.
+    destruct H as ((T0 & T1) & C0 & _ & _ & _ & C1).
+    assert (Hq : ceil = (items + chunks - 1) / chunks) by (unfold ceil; apply Z.quot_div_nonneg; lia).
+    assert (Hm : ceil * chunks <= items + chunks - 1) by (rewrite Hq, Z.mul_comm; apply Z.mul_div_le; lia).
+    assert (Hm0 : 0 <= ceil * chunks) by (apply Z.mul_nonneg_nonneg; lia).
+    assert (P : 2 ^ 63 = 9223372036854775808) by reflexivity.
+    unfold in_ssize. rewrite P in *. repeat split; lia.
+Qed.
+
+(* ------------------------------------------------------------------------------------------------ the sanitizer judge *)
+Lemma judge_san_clean_iff r : judge_san r = 0 <-> snd (fst r) = 0.
+Proof.
+  destruct r as [[h k] mask]. unfold judge_san, known_c26_dtor, known_c26_false. cbn [fst snd].
+  destruct (k =? 0) eqn:E.
+  - apply Z.eqb_eq in E. tauto.
+  - apply Z.eqb_neq in E. split; [|tauto].
+    destruct ((h =? H_TIMEDTASK) && (k =? K_UAF) && Z.testbit mask 1); [discriminate|].
+    destruct ((h =? H_TIMEDTASK) && (k =? K_UAF) && Z.testbit mask 2); discriminate.
+Qed.
+
+(* the suppression is never wider than C26's domains: a record judged "known" is a use-after-free of a TimedTask case that
+   C26's own judge placed in the corresponding finding domain *)
+Lemma judge_san_known_sound r : judge_san r = 4 \/ judge_san r = 5 ->
+  fst (fst r) = H_TIMEDTASK /\ snd (fst r) = K_UAF /\ (Z.testbit (snd r) 1 = true \/ Z.testbit (snd r) 2 = true).
+Proof.
+  destruct r as [[h k] mask]. unfold judge_san, known_c26_dtor, known_c26_false. cbn [fst snd].
+  destruct (k =? 0); [intros [H|H]; discriminate|].
+  destruct (h =? H_TIMEDTASK) eqn:Eh; cbn [andb]; [|intros [H|H]; discriminate].
+  destruct (k =? K_UAF) eqn:Ek; cbn [andb]; [|intros [H|H]; discriminate].
+  apply Z.eqb_eq in Eh, Ek.
+  destruct (Z.testbit mask 1) eqn:E1; [tauto|].
+  destruct (Z.testbit mask 2) eqn:E2; [tauto|]. intros [H|H]; discriminate.
+Qed.
+
+(* ------------------------------------------------------------------------------------------------ roll-up *)
+(* the memory-safety / leak-freedom statement attached to each covered mechanism *)
+Definition C11_safe (m : mechanism) : Prop :=
+  match m with
+  | MOnceFunction => oncefn_safe
+  | MOpResult => opresult_safe
+  | MSmallVector => smallvec_safe
+  | MConcurrentVector => cvec_safe
+  | MConcurrentVectorGrowth => cvecgrow_safe
+  | MMpmcRing => mpmc_safe
+  | MSpscRing => spsc_safe
+  | MChaseLevDeque => chaselev_safe
+  | MObjectArena => arena_safe
+  | MSmallBufferAllocator => smallbuf_safe
+  | MPoolAllocator => poolalloc_safe
+  | MAlignedMalloc => alignedmalloc_safe
+  | MFutureRefcount => future_safe
+  | MTimedTaskTeardown => timedtask_teardown_except          (* NOT the full statement: see timedtask_teardown_refuted *)
+  | MChunkArithmetic => chunk_arith_safe
+  end.
+
+Lemma all_mechanisms_exhaustive : forall m, In m all_mechanisms.
+Proof. intros m. destruct m; cbn; tauto. Qed.
+
+Lemma partial_proof : forall m, C11_safe m.
+Proof.
+  intros m. destruct m; cbn [C11_safe].
+  - exact oncefn_safe_proof.
+  - exact opresult_safe_proof.
+  - exact smallvec_safe_proof.
+  - exact cvec_safe_proof.
+  - exact cvecgrow_safe_proof.
+  - exact mpmc_safe_proof.
+  - exact spsc_safe_proof.
+  - exact chaselev_safe_proof.
+  - exact arena_safe_proof.
+  - exact smallbuf_safe_proof.
+  - exact poolalloc_safe_proof.
+  - exact alignedmalloc_safe_proof.
+  - exact future_safe_proof.
+  - exact timedtask_teardown_except_proof.
+  - exact chunk_arith_safe_proof.
+Qed.
+
+(* every modelled mechanism at full strength, i.e. with TimedTask teardown NOT restricted to the complement of C26's finding *)
+Definition modelled_full : Prop := (forall m, C11_safe m) /\ timedtask_teardown_full.
+
+Lemma modelled_full_refuted : ~ modelled_full.
+Proof. intros (_ & F). exact (timedtask_teardown_refuted F). Qed.
